@@ -589,9 +589,9 @@ def run(ctx):
     ctx.assumptions = ["the real functions are driven on tlexport.packet.Packet objects built from the generated frames; "
                        "the model receives what they read (ipv6_packet, ip_src, ip_dst, bytes(packet.tcp|udp))",
                        "end to end the tool is run in-process (tlexport.main.run with sys.argv), module-level lists reset"]
-    import export_inputs_thms          # whole-program forms (Props/ExportInputs) about exportFile / framesFrom
-    ctx.prove(["TLX.Props.C11"] + export_inputs_thms.MODULES)
-    ctx.require_theorems(export_inputs_thms.THEOREMS_C11)
+    import export_inputs_thms, export_inputs2_thms          # whole-program forms (Props/ExportInputs) about exportFile / framesFrom
+    ctx.prove(["TLX.Props.C11"] + export_inputs_thms.MODULES + export_inputs2_thms.MODULES)
+    ctx.require_theorems(export_inputs_thms.THEOREMS_C11 + export_inputs2_thms.THEOREMS_NAT + export_inputs2_thms.THEOREMS_C11)
     import file_corr
     file_corr.correspond(ctx, ctx.n(12, 200))     # ties the whole-program model (the theorems' subject) file to file
     ctx.require_theorems(THEOREMS)
